@@ -104,6 +104,18 @@ CHECKS = {
         design_ref="DESIGN.md section 4, C14", note=E2_NOTE,
         technique="explicit-state model checking (fixpoint BFS) with differential twin-world oracle",
     ),
+
+    "C11": dict(
+        engine="E4", category="fault_enumeration",
+        text=("Exhaustive fault enumeration over the file operations of a write: for every file store class and both staged_write helpers, str and pathlib paths, previous value present/absent, "
+              "new value small / empty / larger than the io buffer / failing to serialise part-way, a fault-free pass records the operation list (open, write..., close, replace, remove) through "
+              "process-wide proxies; the write is repeated with a fault at EVERY operation index in every mode (OSError before/after the operation took effect, non-Exception BaseException, "
+              "process death before/after in a forked child). Oracle: target bytes are the complete previous or complete new value, modified time changes only with new content, no staging file after a failure by exception, "
+              "a staging file left by a death does not disturb a later write+read."),
+        design_ref="DESIGN.md section 4, C11; section 3 E4",
+        note="Crash model is process death (Python buffers lost), not power loss; interception is at builtins.open / io.open / os.replace / os.rename / os.remove, so writes that bypass the staging helper are still observed; an exception inside the clean-up's own os.remove is not injected.",
+        technique="exhaustive fault / crash-point enumeration over the recorded file-operation sequence of the real write path",
+    ),
 }
 
 NOT_APPLICABLE = {
